@@ -109,8 +109,8 @@ HAZARDS = {
     'eol': "EOL ($->) is printed as '⏎', which the grammar cannot read",
     'based-params': 'a based rule with parameters prints them after `< base`',
     'tok-both-quotes': "a token/keyword/param with both quote kinds is printed with repr() ('a\\'b\"')",
-    'tok-newline-quote': '(reserved)',
-    'nomemo': '@nomemo is recorded in Rule.decorators but never sets no_memo and is not printed',
+    'nomemo': '@nomemo is recorded in Rule.decorators but never sets no_memo and is not printed (repaired in /repo by '
+              'a2f6c0b; kept so that a regression is attributed)',
     'empty-closure-end': 'a rule ending in {} swallows the blank-line rule separator',
     'multiline-const': 'a multi-line constant is printed between single backticks',
     'pattern-slash-dquote': "a pattern with '/' and '\"' is printed as ?\"...\\\"...\"",
@@ -129,6 +129,8 @@ HAZARDS = {
                        'None (default whitespace) and the next pretty() raises TypeError',
     'directive-regex-quote': "a regex directive with '/' and '\"' is printed as ?\"...\" without escaping",
     'pattern-slash-newline': "a pattern with '/' and a newline is printed as ?\"...\", which cannot span lines",
+    'nostak': '@nostak (which sets Rule.no_stak: the rule is not pushed on the call stack) is not printed by pretty(), '
+              'so the recompiled model loses the decorator',
 }
 
 
@@ -591,9 +593,6 @@ def gen_case(rng: random.Random, profile: Profile | None = None):
         elif y < 0.13:
             r_.decorators = ('isname',)
             feats.add('dec_isname')
-        elif y < 0.16:
-            r_.decorators = ('nostak',)
-            feats.add('dec_nostak')
     if rng.random() < 0.08:
         # an @override redefinition of an existing rule (the later definition wins)
         victim = rng.choice(g.rules)
@@ -726,6 +725,12 @@ def _inj_nomemo(rng, g, start, pats, add):
         r.decorators = ('nomemo',)
 
 
+def _inj_nostak(rng, g, start, pats, add):
+    r = rng.choice(g.rules)
+    if r.decorators != ('override',):
+        r.decorators = ('nostak',)
+
+
 def _inj_empty_end(rng, g, start, pats, add):
     if len(g.rules) < 2:
         g.rules.append(L.Rule('tail', L.Tok('c')))
@@ -827,6 +832,7 @@ HAZARD_INJECT = {
     'based-params': _inj_based_params,
     'tok-both-quotes': _inj_tok_both,
     'nomemo': _inj_nomemo,
+    'nostak': _inj_nostak,
     'empty-closure-end': _inj_empty_end,
     'multiline-const': _inj_ml_const,
     'pattern-slash-dquote': _inj_pat_sd,
@@ -923,6 +929,8 @@ def hazards(g: L.Grammar) -> set:
             hz.add('param-nonstr')
         if 'nomemo' in r.decorators:
             hz.add('nomemo')
+        if 'nostak' in r.decorators:
+            hz.add('nostak')
         if i < len(g.rules) - 1 and isinstance(_last_element(r.body), L.Empty):
             hz.add('empty-closure-end')
         if any(_numlike(p) for p in r.params) or any(_numlike(v) for _, v in r.kwparams):
@@ -996,6 +1004,8 @@ def neutralise(g: L.Grammar, hz: set) -> L.Grammar:
             params, kwparams = (), ()
         if 'nomemo' in hz:
             decorators = tuple(d for d in decorators if d != 'nomemo')
+        if 'nostak' in hz:
+            decorators = tuple(d for d in decorators if d != 'nostak')
         if 'param-numlike' in hz:
             params = tuple('P' + p if _numlike(p) else p for p in params)
             kwparams = tuple((k, 'P' + v if _numlike(v) else v) for k, v in kwparams)
@@ -1088,7 +1098,8 @@ def rule_facts(model):
         out.append({'name': r.name, 'params': [repr(p) for p in (r.params or ())],
                     'kwparams': {k: repr(v) for k, v in (r.kwparams or {}).items()},
                     'base': r.base or None, 'is_name': bool(r.is_name),
-                    'nomemo': bool(r.no_memo) or 'nomemo' in (r.decorators or [])})
+                    'nomemo': bool(r.no_memo) or 'nomemo' in (r.decorators or []),
+                    'nostak': bool(r.no_stak)})
     return out
 
 
@@ -1097,10 +1108,6 @@ def directive_facts(model):
 
 
 # --------------------------------------------------------------------------- ANTLR (g2e route)
-ANTLR_ATOMS = ["'a'", "'b'", "'+'", "'('", "')'", 'ID', 'NUM', 'PLUS', 'expr', 'term', "'it\\'s'", '"dq"',
-               '[a-c]', '[0-9]+', '.', 'EOF']
-
-
 def antlr_case(rng: random.Random):
     """-> (antlr text, start rule, sample inputs)"""
     negs = rng.random() < 0.4        # ~x (known layout defect) only in part of the grammars
